@@ -448,6 +448,15 @@ def runFrameSeq (c i steps : String) : String :=
     let (f1, b) := ({ acc.1 with data := pl } : Frame).toBytes
     (f1, acc.2 ++ [toHex b] ++ (if f1.data == pl then [] else ["DATA-CHANGED"]))) (f0, [])
   " ".intercalate outs
+/-- `framefam|<parent>:<cls>:<id>:<hex>;…`: frames of different classes of one family; a class's serialisation depends on
+    its own class/id and payload only (parent `B`: an instance of `UbxFrame` itself, class/id 0/0) -/
+def runFrameFam (steps : String) : String :=
+  " ".intercalate ((steps.splitOn ";").map fun st =>
+    match st.splitOn ":" with
+    | [par, c, i, h] =>
+        let f : Frame := if par == "B" then { cls := 0, id := 0, data := parseHex h } else { cls := c.toNat!, id := i.toNat!, data := parseHex h }
+        toHex f.toBytes.2
+    | _ => "bad-step")
 def runFrameGen (c i len seed mode : String) : String :=
   let f : Frame := { cls := c.toNat!, id := i.toNat!, data := lcgPayload len.toNat! seed.toNat! mode.toNat! }
   let (f1, b1) := f.toBytes
@@ -505,6 +514,7 @@ def handle (line : String) : String :=
   | "seq" :: rest => runSeq rest
   | ["fields", c, pl] => runFields c pl
   | ["assign", c, pl, f, v] => runAssign c pl f v
+  | ["assign", c, pl, f, v, _] => runAssign c pl f v
   | "keypack" :: rest => runKeyPack rest
   | "keystr" :: rest => runKeyStr rest
   | ["keyunpack", h] => runKeyUnpack h
@@ -513,6 +523,7 @@ def handle (line : String) : String :=
   | ["valgetpoll", keys] => runValgetPoll keys
   | ["valget", pl] => runValget pl
   | ["gnss", op, sys, bl] => runGnss op sys bl
+  | ["gnss", op, sys, bl, _] => runGnss op sys bl
   | "helper" :: rest => runHelper rest
   | ["render", c, v, d] => runRender c v d
   | ["render", c, v, d, _] => runRender c v d
@@ -520,6 +531,7 @@ def handle (line : String) : String :=
   | ["frame", c, i, pl] => runFrame c i pl
   | ["framegen", c, i, l, s, m] => runFrameGen c i l s m
   | ["frameseq", c, i, st] => runFrameSeq c i st
+  | ["framefam", st] => runFrameFam st
   | ["ck", a, b] => runCk a b
   | ["ckrow", a] => runCkRow a
   | ["ckm", a, b] => runCkM a b
